@@ -52,19 +52,25 @@ impl SnpCase {
         v.sort();
         v
     }
-    /// premise of C17 on the derived samples: every sample's (k-1)-mers unique on both strands
+    /// Premise of C17 re-checked on the derived samples (DESIGN §4 rule 1): in the JOINT graph of all samples every
+    /// canonical (k-1)-mer belongs to one locus only and none is its own reverse complement. A substitution that
+    /// creates a (k-1)-mer which already exists elsewhere (or at the same locus on the other strand) makes the
+    /// graph ambiguous; such cases are not judged for completeness.
     pub fn premise(&self) -> bool {
+        let mut locus: BTreeMap<Vec<u8>, usize> = BTreeMap::new();
         for i in 0..self.n() {
             let s = self.sample_seq(i);
-            let mut seen = std::collections::BTreeSet::new();
-            for w in s.windows(self.k - 1) {
+            for (p, w) in s.windows(self.k - 1).enumerate() {
                 let r = rc_str(w);
                 if r == w {
                     return false;
                 }
                 let c = if r < w.to_vec() { r } else { w.to_vec() };
-                if !seen.insert(c) {
-                    return false;
+                match locus.get(&c) {
+                    Some(q) if *q != p => return false,
+                    _ => {
+                        locus.insert(c, p);
+                    }
                 }
             }
         }
